@@ -6,8 +6,8 @@ Source-to-Gallina translation of slot allocation:
     is chosen and where it is marked used / reserved) is lowered statement by statement into the language of
     coq/Model/MiniSlot.v; the wrapper around it (the mark guard, `if (!cls.used_by_vp.empty())`, the recursion over
     direct_derived) is matched on the AST and, independently, lowered statement by statement (gen_lattice_slots);
-  - assign_tree_slots and assign_slots are matched on the AST as a whole (what they are allowed to be is spelled out below) and,
-    independently, lowered statement by statement into the second language of MiniSlot.v (gen_tree_slots, gen_assign_slots).
+  - assign_tree_slots and assign_slots are lowered statement by statement into the second language of MiniSlot.v
+    (gen_tree_slots, gen_assign_slots).
 Parsed with translators/_minicpp.py (trace output dropped).  Anything else is refused (exit 3).  Proofs/SlotSource.v proves that
 running the translated body is Model.Compile.lattice_assign and that running the translated assign_slots over the translated
 recursive functions is Model.Compile.assign_slots.
@@ -384,101 +384,9 @@ def main():
             if not ok:
                 raise mc.Unsupported('first_clear_bit is no longer `bit = 0; while (bit < mask.size() && mask[bit]) ++bit; return bit;`')
 
-        # ---- assign_tree_slots: next = base; for mp: slots[param] = next++; first_slot = 0; vtbl.resize(next); recurse with next
-        params, body, _ = mc.find_function(src, r'\bvoid\s+compiler<Policy>::assign_tree_slots\b', 'assign_tree_slots')
-        if re.sub(r'\s+', '', params) != 'class_&cls,std::size_tbase_slot':
-            raise mc.Unsupported('assign_tree_slots: parameter list changed')
-        t = nonempty(mc.parse_function_body(mc.drop_trace(body), ())[1])
-        want_t = [
-            ('decl', 'auto', [('next_slot', ('id', 'base_slot'))]),
-            ('rangefor', 'mp', ('member', ('id', 'cls'), 'used_by_vp', False),
-             ('block', [('expr', ('assign', '=', ('index', ('member', ('member', ('id', 'mp'), 'method', False), 'slots', True), ('member', ('id', 'mp'), 'param', False)),
-                                 ('post', '++', ('id', 'next_slot'))))])),
-            ('expr', ('assign', '=', ('member', ('id', 'cls'), 'first_slot', False), ('num', 0))),
-            ('expr', ('call', ('member', ('member', ('id', 'cls'), 'vtbl', False), 'resize', False), [('id', 'next_slot')])),
-            ('rangefor', 'pd', ('member', ('id', 'cls'), 'direct_derived', False),
-             ('block', [('expr', ('call', ('id', 'assign_tree_slots'), [('un', '*', ('id', 'pd')), ('id', 'next_slot')]))])),
-        ]
-        t = inline_consts(t)
-        t = [rename_loop(x, 'pd') if (x[0] == 'rangefor' and x[2] == ('member', ('id', 'cls'), 'direct_derived', False)) else x for x in t]
-        # slots[...] = next_slot; ++next_slot;   is   slots[...] = next_slot++;
-        lhs_t = want_t[1][3][1][0][1][2]
-        split_t = list(want_t)
-        split_t[1] = ('rangefor', 'mp', want_t[1][2], ('block', [('expr', ('assign', '=', lhs_t, ('id', 'next_slot'))), ('expr', ('un', '++', ('id', 'next_slot')))]))
-        if t != want_t and t != split_t:
-            raise mc.Unsupported('assign_tree_slots changed (expected: next = base; one slot per used_by_vp entry, counting up; first_slot = 0; vtbl.resize(next); recursion over direct_derived with next)')
-
-        # ---- assign_slots
-        params, body, _ = mc.find_function(src, r'\bvoid\s+compiler<Policy>::assign_slots\b', 'assign_slots')
-        a = nonempty(mc.parse_function_body(mc.drop_trace(body), ('dynamic_bitset',))[1])
-        flat = []
-        for s in a:
-            flat.extend(nonempty(s[1]) if s[0] == 'block' else [s])
-        cov = ('member', ('id', 'cls'), 'covariant_classes', False)
-
-        def multi_pred(e, named):
-            """a predicate `x -> x->direct_bases.size() > 1`, inline or a local declared just before the loop"""
-            if e[0] == 'id' and e[1] in named:
-                e = named[e[1]]
-            return (e[0] == 'lambda' and len(e[2]) == 1
-                    and e[3] == ('block', [('return', ('bin', '>', call0(('member', ('id', e[2][0]), 'direct_bases', True), 'size'), ('num', 1)))]))
-
-        def is_tree_cond(c, named):
-            if c[0] == 'bin' and c[1] == '==' and c[3] == call0(cov, 'end') and c[2][0] == 'call' and c[2][1] == ('id', 'std::find_if'):
-                a = c[2][2]
-                return len(a) == 3 and a[0] == call0(cov, 'begin') and a[1] == call0(cov, 'end') and multi_pred(a[2], named)
-            if c[0] == 'call' and c[1] == ('id', 'std::none_of'):
-                a = c[2]
-                return len(a) == 3 and a[0] == call0(cov, 'begin') and a[1] == call0(cov, 'end') and multi_pred(a[2], named)
-            return False
-
-        def is_lattice_cond(c, named):
-            if c[0] == 'bin' and c[1] == '!=' and c[3] == call0(cov, 'end') and c[2][0] == 'call' and c[2][1] == ('id', 'std::find_if'):
-                a = c[2][2]
-                return len(a) == 3 and a[0] == call0(cov, 'begin') and a[1] == call0(cov, 'end') and multi_pred(a[2], named)
-            if c[0] == 'call' and c[1] == ('id', 'std::any_of'):
-                a = c[2]
-                return len(a) == 3 and a[0] == call0(cov, 'begin') and a[1] == call0(cov, 'end') and multi_pred(a[2], named)
-            return False
-        named = {}
-        flat2 = []
-        for st in flat:
-            if st[0] == 'decl' and len(st[2]) == 1 and st[2][0][1] is not None and st[2][0][1][0] == 'lambda':
-                named[st[2][0][0]] = st[2][0][1]
-            else:
-                flat2.append(st)
-        flat = flat2
-        roots_ok = False
-        if len(flat) == 3 and flat[1][0] == 'rangefor' and isinstance(flat[1][1], str) and flat[1][2] == ('id', 'classes'):
-            flat[1] = rename_loop(flat[1], 'cls')
-            rb0 = nonempty(flat[1][3][1])
-            for stx in rb0:              # local lambdas declared inside the loop body
-                if stx[0] == 'decl' and len(stx[2]) == 1 and stx[2][0][1] is not None and stx[2][0][1][0] == 'lambda':
-                    named[stx[2][0][0]] = stx[2][0][1]
-            rb0 = [stx for stx in rb0 if not (stx[0] == 'decl' and len(stx[2]) == 1 and stx[2][0][1] is not None and stx[2][0][1][0] == 'lambda')]
-            rb = positive_guard(rb0)
-            if len(rb) == 1 and rb[0][0] == 'if':
-                rb = [('if', rb[0][1], rb[0][2], ('block', inline_consts(nonempty(rb[0][3][1]))), rb[0][4])]
-            if (len(rb) == 1 and rb[0][0] == 'if' and not rb[0][1] and rb[0][4] is None
-                    and rb[0][2] in (('bin', '==', call0(('member', ('id', 'cls'), 'direct_bases', False), 'size'), ('num', 0)), call0(('member', ('id', 'cls'), 'direct_bases', False), 'empty'))):
-                ib = nonempty(rb[0][3][1])
-                tree_call = [('expr', ('call', ('id', 'assign_tree_slots'), [('id', 'cls'), ('num', 0)]))]
-                lat_call = [('expr', ('call', ('id', 'assign_lattice_slots'), [('id', 'cls')]))]
-                roots_ok = (len(ib) == 1 and ib[0][0] == 'if' and not ib[0][1] and ib[0][4] is not None
-                            and ((is_tree_cond(ib[0][2], named) and nonempty(ib[0][3][1]) == tree_call and nonempty(ib[0][4][1]) == lat_call)
-                                 or (is_lattice_cond(ib[0][2], named) and nonempty(ib[0][3][1]) == lat_call and nonempty(ib[0][4][1]) == tree_call)))
-        roots = flat[1] if roots_ok else None
-        used = ('member', ('id', 'cls'), 'used_slots', False)
-        mi = ('rangefor', 'cls', ('id', 'classes'),
-              ('block', [('if', False, call0(used, 'empty'), ('block', [('continue',)]), None),
-                         ('decl', 'auto', [('first_slot', call0(used, 'find_first'))]),
-                         ('expr', ('assign', '=', ('member', ('id', 'cls'), 'first_slot', False),
-                                   ('cond', ('bin', '==', ('id', 'first_slot'), ('scoped', ('tmpl', 'boost::dynamic_bitset', ['']), 'npos')), ('num', 0), ('id', 'first_slot')))),
-                         ('expr', ('call', ('member', ('member', ('id', 'cls'), 'vtbl', False), 'resize', False),
-                                   [('bin', '-', call0(used, 'size'), ('member', ('id', 'cls'), 'first_slot', False))]))]))
-        want_a = [('expr', ('un', '++', ('id', 'class_mark'))), roots, mi]
-        if flat != want_a:
-            raise mc.Unsupported('assign_slots changed (expected: ++class_mark; for every class without direct base: a tree walk when no covariant class has two direct bases, else a lattice walk; then, for every class with used slots: first_slot = the first used slot, vtbl.resize(used.size() - first_slot))')
+        # assign_tree_slots and assign_slots used to be matched here as whole ASTs; they are lowered statement by statement
+        # below (ALower) and what is lowered is proved to be Model.Compile.assign_slots (Proofs/SlotSource.v), which
+        # decides more spellings and trusts less
     except mc.Unsupported as e:
         die(str(e))
     try:
